@@ -542,4 +542,53 @@ theorem symHash_canon {H : PyHash} (hF : HashOk H) (x : Val) :
     symHash H (canon env x) = symHash H x := by
   rw [symHash_eq, symHash_eq, hash_canon hF]
 
+/-! ### (d) The laws on well-formed values (any key order) -/
+
+/-- Trichotomy of `pg.lt` (never raises) and symmetry of `eq`. -/
+theorem wf_tri (ok : EnvOk env) (num : Bool) (x y : Val)
+    (hx : wellFormed env num x = true) (hy : wellFormed env num y = true) :
+    Tri (symLt env x y) (eq x y) (symLt env y x) ∧ eq y x = eq x y := by
+  have h := tri ok num (canon env x) (canon env y) (wf_canon ok num x hx) (wf_canon ok num y hy)
+  rw [eq_canon num x y hx hy, eq_canon num y x hy hx] at h
+  exact h
+
+theorem wf_eq_refl (ok : EnvOk env) (num : Bool) (x : Val) (hx : wellFormed env num x = true) :
+    eq x x = true := by
+  rw [← eq_canon (env := env) num x x hx hx]
+  exact eq_refl ok num _ (wf_canon ok num x hx)
+
+theorem wf_eq_trans (ok : EnvOk env) (num : Bool) (x y z : Val)
+    (hx : wellFormed env num x = true) (hy : wellFormed env num y = true)
+    (hz : wellFormed env num z = true) (h1 : eq x y = true) (h2 : eq y z = true) : eq x z = true := by
+  rw [← eq_canon (env := env) num _ _ hx hy] at h1
+  rw [← eq_canon (env := env) num _ _ hy hz] at h2
+  rw [← eq_canon (env := env) num _ _ hx hz]
+  exact eq_trans ok num _ _ _ (wf_canon ok num x hx) (wf_canon ok num y hy) (wf_canon ok num z hz) h1 h2
+
+theorem wf_hash_congr (ok : EnvOk env) {H : PyHash} (hH : HashOk H) (num : Bool) (x y : Val)
+    (hx : wellFormed env num x = true) (hy : wellFormed env num y = true) (he : eq x y = true) :
+    symHash H x = symHash H y := by
+  rw [← eq_canon (env := env) num _ _ hx hy] at he
+  rw [← symHash_canon (env := env) hH x, ← symHash_canon (env := env) hH y, symHash_eq, symHash_eq]
+  exact congrArg _ (hash_congr ok hH num _ _ _ _ (wf_canon ok num x hx) (wf_canon ok num y hy) he
+    (hashTerm_eq _) (hashTerm_eq _))
+
+theorem wf_lt_trans (ok : EnvOk env) (num : Bool) (x y z : Val)
+    (hx : wellFormed env num x = true) (hy : wellFormed env num y = true)
+    (hz : wellFormed env num z = true)
+    (h1 : symLt env x y = .ok true) (h2 : symLt env y z = .ok true) : symLt env x z = .ok true :=
+  lt_trans ok num _ _ _ (wf_canon ok num x hx) (wf_canon ok num y hy) (wf_canon ok num z hz) h1 h2
+
+theorem wf_lt_congr_left (ok : EnvOk env) (num : Bool) (x y z : Val)
+    (hx : wellFormed env num x = true) (hy : wellFormed env num y = true)
+    (hz : wellFormed env num z = true) (h : eq x y = true) : symLt env x z = symLt env y z := by
+  rw [← eq_canon (env := env) num _ _ hx hy] at h
+  exact lt_congr_left ok num _ _ _ (wf_canon ok num x hx) (wf_canon ok num y hy) (wf_canon ok num z hz) h
+
+theorem wf_lt_congr_right (ok : EnvOk env) (num : Bool) (x y z : Val)
+    (hx : wellFormed env num x = true) (hy : wellFormed env num y = true)
+    (hz : wellFormed env num z = true) (h : eq y z = true) : symLt env x y = symLt env x z := by
+  rw [← eq_canon (env := env) num _ _ hy hz] at h
+  exact lt_congr_right ok num _ _ _ (wf_canon ok num x hx) (wf_canon ok num y hy) (wf_canon ok num z hz) h
+
 end Pg.C06
